@@ -905,7 +905,8 @@ fn strict_uint(w: &str) -> Option<usize> {
 /// (The strict parser below may give up on a text for another reason before it looks at the number.)
 fn declares_too_big(bytes: &[u8]) -> bool {
     let text = String::from_utf8_lossy(bytes);
-    text.split(['\n', '\r']).any(|l| {
+    // (lines end at \n only: a lone \r is just white space to a liberal splitter)
+    text.split('\n').any(|l| {
         let w: Vec<&str> = l.split_whitespace().collect();
         w.len() >= 3 && w[0] == "p" && w[1] == "af" && {
             let t = w[2].trim_start_matches(['+', '-']);
